@@ -121,6 +121,7 @@ def run(ctx):
             expect.append(("mask", used))
             metas.append(meta)
     sequences(ctx)
+    single_precision(ctx, lines, expect, metas)
     out = ctx.driver("Fit", lines) if lines else None
     if out is not None:
         for (kind, val), o, meta in zip(expect, out, metas):
@@ -134,17 +135,74 @@ def run(ctx):
                     ctx.disagree(meta, list(map(float, val[:3])), list(map(float, g[:3])), "plateau scan grid")
 
 
+def single_precision(ctx, lines, expect, metas):
+    """curves whose abscissa column is stored in single precision (instrument files do that), intervals given
+    as ordinary Python floats that lie within a float32 rounding of a sample: the closed interval is exact"""
+    import warnings
+    from curves import make_indentation
+    rng = ctx.rng
+    for i in range(4 if ctx.tier == "quick" else 60):
+        mk = rng.choice(fitlib.MODELS[:3])
+        truth = fitlib.truth_params(mk, rng, cp=0.0)
+        base = fitlib.synth_curve(mk, truth, rng, n_app=200, n_ret=80, noise=1e-11, seed=1000 + i)
+        idnt = make_indentation(np.asarray(base["force"]), np.asarray(base["height (measured)"]),
+                                np.asarray(base["segment"]), time=np.asarray(base["time"]),
+                                tip=np.asarray(base["tip position"]), tip_dtype=np.float32)
+        x = np.asarray(idnt["tip position"])
+        if x.dtype != np.float32:
+            ctx.notes.append("single-precision abscissa not kept by Indentation(data=...): stream skipped")
+            return
+        x64 = x.astype(np.float64)
+        seg = np.asarray(idnt["segment"]) == 0
+        cand = np.where(seg & (np.abs(x64) > 1e-8))[0]
+        j_hi, j_lo = sorted(rng.sample(list(cand[5:-5]), 2))     # approach: abscissa decreases with the index
+        # bounds just inside the neighbouring samples: x[j_hi] is slightly above the upper bound, x[j_lo]
+        # slightly below the lower one - both samples are outside the closed interval
+        hi = float(x64[j_hi]) - 1e-9 * abs(float(x64[j_hi]))
+        lo = float(x64[j_lo]) + 1e-9 * abs(float(x64[j_lo]))
+        if rng.random() < 0.5:
+            lo, hi = hi, lo                                       # inverted order is accepted as well
+        meta = {"stream": "single-precision", "model": mk, "i": i, "range_x": [lo, hi], "n": int(x.size),
+                "sample_above": float(x64[j_hi]), "sample_below": float(x64[j_lo])}
+        with warnings.catch_warnings():
+            warnings.simplefilter("ignore")
+            try:
+                idnt.fit_model(model_key=mk, range_type="absolute", range_x=[lo, hi], segment=0,
+                               preprocessing=[])
+            except BaseException as e:  # noqa
+                ctx.case({**meta, "result": repr(e)}, bucket=["stream=single-precision", "result=raises"])
+                continue
+        used = np.asarray(idnt["fit range"], dtype=bool)
+        exp = expected_mask(x64, seg, min(lo, hi), max(lo, hi))
+        ctx.case(meta, nontrivial=json.dumps(meta, sort_keys=True), bucket=["stream=single-precision"])
+        if not np.array_equal(exp, used):
+            ctx.violation("wrong-points:absolute:single-precision",
+                          f"{int(np.sum(exp != used))} points differ between the points used and the closed interval "
+                          f"[{min(lo, hi)!r}, {max(lo, hi)!r}] on a float32 abscissa (samples "
+                          f"{float(x64[j_hi])!r} / {float(x64[j_lo])!r} lie just outside)", {"input": meta})
+        fp = idnt.fit_properties
+        if fp.get("success") and used.sum() > 0:
+            if not (min(lo, hi) <= fp["xmin"] and fp["xmax"] <= max(lo, hi)):
+                ctx.violation("xmin-xmax:single-precision", f"xmin/xmax ({fp['xmin']!r}, {fp['xmax']!r}) outside the "
+                              f"requested interval [{min(lo, hi)!r}, {max(lo, hi)!r}]", {"input": meta})
+        lines.append({"op": "mask", "seg": [bool(b) for b in seg], "xs": [q(v) for v in x64],
+                      "a": q(min(lo, hi)), "b": q(max(lo, hi))})
+        expect.append(("mask", used))
+        metas.append(meta)
+
+
 def sequences(ctx):
     """settings given in one call and used by a later one: the plateau scan must use the requested number of
     samples and the requested upper bound no matter in which call they were passed"""
     import warnings
     rng = ctx.rng
-    for i in range(3 if ctx.tier == "quick" else 25):
+    scens = ["samples-then-search", "search-off-samples-on", "upper-bound-then-search", "scan-called-directly"]
+    for i in range(4 if ctx.tier == "quick" else 32):
         mk = rng.choice(fitlib.MODELS[:3])
         truth = fitlib.truth_params(mk, rng, cp=0.0)
         n1, n2 = rng.choice([7, 12, 24]), rng.choice([9, 15, 31])
         hi = rng.choice([0.0, 4e-7])
-        scen = rng.choice(["samples-then-search", "search-off-samples-on", "upper-bound-then-search"])
+        scen = scens[i % 4]
         idnt = fitlib.synth_curve(mk, truth, rng, n_app=300, n_ret=100, noise=1e-11, seed=i)
         hist = []
         with warnings.catch_warnings():
@@ -165,6 +223,20 @@ def sequences(ctx):
                     hist += [f"fit_model(optimal_fit_edelta=True, optimal_fit_num_samples={n1})",
                              "fit_model(optimal_fit_edelta=False)", f"fit_model(optimal_fit_num_samples={n2})",
                              "fit_model(optimal_fit_edelta=True)"]
+                    want_n, want_hi = n2, hi
+                elif scen == "scan-called-directly":
+                    # plateau search off: the E(delta) scan is requested with compute_emodulus_mindelta()
+                    idnt.fit_model(model_key=mk, optimal_fit_num_samples=n1, range_type="absolute", range_x=[-2e-6, hi])
+                    e1, d1 = idnt.compute_emodulus_mindelta()
+                    hist += [f"fit_model(optimal_fit_num_samples={n1}, range_x=[-2e-6, {hi}])",
+                             f"compute_emodulus_mindelta() -> {len(d1)} samples"]
+                    if len(d1) != n1:
+                        ctx.violation("plateau-sample-count:sequence", f"{hist}: {n1} samples were requested",
+                                      {"history": list(hist), "observed": len(d1), "expected": n1})
+                    idnt.fit_model(optimal_fit_num_samples=n2)
+                    e2, d2 = idnt.compute_emodulus_mindelta()
+                    hist += [f"fit_model(optimal_fit_num_samples={n2})",
+                             f"compute_emodulus_mindelta() -> {len(d2)} samples"]
                     want_n, want_hi = n2, hi
                 else:
                     idnt.fit_model(model_key=mk, range_type="absolute", range_x=[-2e-6, hi])
